@@ -50,6 +50,7 @@ def cases(ctx):
             {"op": "add", "target": {"kind": "entry", "array": "a1", "idx": 0}, "other": 1, "mod": None}], "script": []}
         yield {"kind": "kf-reg-across-flush"}
         yield {"kind": "kf-remeasure"}
+        yield {"kind": "kf-mreg-recycled"}
         # every add form on both kinds of target with the operands 0 and 1, with and without a modulus that the value already
         # exceeds (adding 0 modulo m still reduces), in one and in two flush segments
         for kind in ("reg", "entry"):
@@ -144,6 +145,8 @@ def all_scripts(prog, cap=64):
 
 
 def run_case(ctx, case):
+    if case["kind"] == "kf-mreg-recycled":
+        return _kf_mreg_recycled(ctx, case)
     if case["kind"] == "kf-remeasure":
         return _kf_remeasure(ctx, case)
     if case["kind"] == "kf-reg-across-flush":
@@ -165,6 +168,37 @@ def run_case(ctx, case):
         ctx.count("bodies_executed", ref.executed_bodies)
         ctx.count("loop_iterations", ref.iterations)
     ctx.case(case, nontrivial)
+
+
+def _kf_mreg_recycled(ctx, case):
+    """Known finding: the M registers are handed out anew after every flush, also those still bound to a RegFuture the program
+    holds: a register measurement of the next subroutine lands in the register of the earlier handle."""
+    from netqasm.sdk.qubit import Qubit
+    from vf.harness.pipeline import Pipe
+    pipe = Pipe(script=[1, 0, 0, 0])
+    fault = None
+    with pipe.conn as conn:
+        q1, q2, t = Qubit(conn), Qubit(conn), Qubit(conn)
+        q1.X()
+        m1 = q1.measure(store_array=False)         # outcome 1
+        conn.flush()
+        m2 = q2.measure(store_array=False)         # outcome 0
+        with m1.if_eq(1):                          # true when executed directly
+            t.X()
+        try:
+            conn.flush()
+            host1, host2 = int(m1), int(m2)
+        except Exception as e:
+            host1 = host2 = None
+            fault = f"{type(e).__name__}: {str(e)[:100]}"
+        n_x = sum(1 for ev in pipe.ex.trace if ev[0] == "x")
+        t.measure()
+    if fault or n_x != 2 or host1 != 1 or host2 != 0:
+        ctx.fail(case, f"m1 = q1.measure(store_array=False) -> 1; flush; m2 = q2.measure(store_array=False) -> 0; with m1.if_eq(1): t.X(): "
+                       f"executed directly X is applied to t and the host reads m1 = 1, m2 = 0; the controller applied {n_x - 1} X gate(s) to t, "
+                       f"the host reads m1 = {host1}, m2 = {host2} (registers {m1.reg}, {m2.reg})" + (f", fault {fault}" if fault else ""),
+                 key="regfuture-across-flush:m-register-handed-out-again")
+    ctx.case(case, True)
 
 
 def _kf_remeasure(ctx, case):
